@@ -25,6 +25,7 @@ func init() {
 		"Assume":    zzAssume,
 		"Assert":    zzAssert,
 		"Cover":     zzCover,
+		"MapOrders": zzMapOrders,
 		"Note":      zzNote,
 		"Observe":   zzObserve,
 		"Implies":   zzImplies,
@@ -171,6 +172,11 @@ func zzAssert(fr *frame, args []value) value {
 func zzCover(fr *frame, args []value) value {
 	ps := needPath(fr)
 	ps.covers[concreteString(fr, args[0], "cover label")] = true
+	return nil
+}
+
+func zzMapOrders(fr *frame, args []value) value {
+	needPath(fr).mapOrdersOff = !fr.i.concrete(args[0], "map order switch").(bool)
 	return nil
 }
 
